@@ -110,6 +110,7 @@ class Run:
         self.errors = []        # (key, msg)
         self.trace = []
         self.trigger_active = 0
+        self.trig_names = []          # stack of the name sets of the trigger() calls in progress
         self.ctx_seen_trigger_in_batch = False
         self.taint_trigger_cascade = False
         self.batched_hist = {}       # key -> objects assigned while batched since the last quiescent point
@@ -241,11 +242,14 @@ class Run:
             try:
                 acts = w['actions']
                 if self.trigger_active and 'trigger_cascade' not in self.feats:
-                    # an assignment made by a callback that runs because of trigger is a known finding (the per-object
-                    # TRIGGER flag leaks into it); it is exercised only in the dedicated 'trigger_cascade' cases so that
-                    # everything else stays strictly judged
-                    acts = []
-                    self.stats['actions_skipped_under_trigger'] = self.stats.get('actions_skipped_under_trigger', 0) + 1
+                    # an assignment, made by a callback that runs because of trigger, to a parameter that is itself being
+                    # triggered is a known finding (it is dispatched as if triggered too); it is exercised only in the
+                    # dedicated 'trigger_cascade' cases so that everything else stays strictly judged
+                    being = set().union(*self.trig_names) if self.trig_names else set()
+                    kept = [a for a in acts if not (a[0] == 'set' and a[1] in being)]
+                    if len(kept) != len(acts):
+                        self.stats['actions_skipped_under_trigger'] = self.stats.get('actions_skipped_under_trigger', 0) + 1
+                    acts = kept
                 for act in acts:
                     if act[0] == 'set':
                         self.stats['nested_ops'] += 1
@@ -331,7 +335,8 @@ class Run:
         old = self.model[key]
         self.model[key] = value
         ws = self.watchers_of(key)
-        in_trigger_cb = self.trigger_active > 0 and bool(self.cbstack)
+        in_trigger_cb = self.trigger_active > 0 and bool(self.cbstack) and key[1] == 'value' and \
+            any(key[0] in names for names in self.trig_names)
         if in_trigger_cb:
             self.taint_trigger_cascade = True
             self.stats['assignments_inside_triggered_cb'] = self.stats.get('assignments_inside_triggered_cb', 0) + 1
@@ -716,11 +721,13 @@ class Run:
                 names.insert(self.rng.randrange(len(names) + 1), 'dyn')
                 self.stats['dynamic_triggers'] = self.stats.get('dynamic_triggers', 0) + 1
             self.trigger_active += 1
+            self.trig_names.append(set(names))
             self.log('trigger', names)
             try:
                 self.o.param.trigger(*names)
             finally:
                 self.trigger_active -= 1
+                self.trig_names.pop()
             if gen is not None and self.o.param.get_value_generator('dyn') is not gen:
                 self.err('trigger-altered-value', f'dyn held a value generator before trigger({names}), now {self.o.param.get_value_generator("dyn")!r}')
             for key in self.model:
